@@ -8,6 +8,11 @@
 //	      an absolutely positioned 40x20 block at (10,10), rendered through the whole pipeline;
 //	      the matrix in effect at the paint of the block (page matrix removed) must be
 //	      T(origin) · F1 · F2 ... · T(-origin);
+//	      (ii') shared-rule: one rule matched by blocks with different fonts and boxes (shared.go);
+//	      (ii'') box-kinds: the function menu x every transform-origin on every kind of box that
+//	      the box builder wraps into / replaces by another box: tables (wrapper box, captions),
+//	      inline-table, table parts, list items, inline-block / -flex / -grid, flex and grid
+//	      containers and items, blockified inlines, replaced elements (kinds.go);
 //	(iii) svg: the same kind of lists in the syntax of the SVG `transform` attribute on a
 //	      <rect>, in several spellings (comma / space separators, padding).
 package c17
@@ -75,6 +80,19 @@ func coreOf(l []fn) []fn {
 	var out []fn
 	for _, f := range l {
 		if f.core {
+			out = append(out, f)
+		}
+	}
+	return out
+}
+
+// onePerName keeps the first function of each function name.
+func onePerName(l []fn) []fn {
+	var out []fn
+	seen := map[string]bool{}
+	for _, f := range l {
+		if !seen[f.name] {
+			seen[f.name] = true
 			out = append(out, f)
 		}
 	}
@@ -194,7 +212,7 @@ func (c *check) Init(tier string, seed int64) engine.Space {
 			withO(mkSpace("box-kinds=2(core menu)", c.cssCore, 2, 2), c.origins)}
 	} else {
 		c.kindLists = []listSpace{withO(mkSpace("box-kinds<=1(whole menu)", c.cssFns, 1, 1), c.origins),
-			withO(mkSpace("box-kinds=2(core menu)", c.cssCore, 2, 2), []origin{c.origins[2]})}
+			withO(mkSpace("box-kinds=2(one function per name)", onePerName(c.cssCore), 2, 2), two)}
 	}
 	var kindCases int64
 	for _, ls := range c.kindLists {
@@ -319,7 +337,7 @@ func (c *check) Init(tier string, seed int64) engine.Space {
 			"css_renders":          cssCases,
 		"box_kinds":            kindNames(c.kinds),
 		"box_kind_renders":     kindCases,
-		"box_kind_lists":       map[string]string{"quick": "one function of the whole menu x every origin; two functions of the core menu x origin 1em 20%", "thorough": "one function of the whole menu, two functions of the core menu, both x every origin"}[tier],
+		"box_kind_lists":       map[string]string{"quick": "one function of the whole menu x every origin; two functions of the menu made of the first core function of each name (translate, translateX, ..., matrix) x the origins (initial) and 1em 20%", "thorough": "one function of the whole menu, two functions of the core menu, both x every origin"}[tier],
 			"shared_rule":          map[string]any{"documents": nSh, "transform_lists": len(c.shLists), "structures": sharedStructs, "origins": []string{"(initial)", "transform-origin:1em 1ex"}, "blocks": "a: font-size 10px 40x20; b: 30px 60x30; c: 15px 20x10; html 20px; Ahem: ex=.8em ch=1em"},
 			"svg_functions":        names(c.svgFns),
 			"svg_core_functions":   names(c.svgCore),
